@@ -11,7 +11,7 @@ META = {
                'type parameter scopes (3.12); the real 158-name builtin namespace (replay uses it)',
     'stubs': ['ast.parse -> the pre-built tree; unparse -> captures the transformed tree (vf.stubs.pipeline)',
               'builtins in rename/util, bind_names, resolve_names, name_generator -> 13-name module (vf.stubs.builtins_stubbed)',
-              'hash in rename_literals -> constant', 'ast.AST.__hash__ -> creation index (deterministic set order)'],
+              'hash in rename_literals -> constant', 'repr in rename_literals -> quote+text+quote length model (cost model only)', 'ast.AST.__hash__ -> creation index (deterministic set order)'],
     'assumptions': ['R-scope (vf/rscope.py) implements CPython scoping: validated against symtable on the stdlib and the repo',
                     'the input program is compilable per R-scope (checked before the pipeline runs)'],
 }
